@@ -319,7 +319,7 @@ pub fn replay(sub: &str, case: &Value) -> Result<CheckResult, String> {
 // (run_select's is_as_loop filter, rx_msg, rx_update's ORIGINATOR_ID / CLUSTER_LIST checks)
 // ---------------------------------------------------------------------------
 
-pub const INBOUND_RULE: &str = "inbound-session: a wire-level peer of every kind (eBGP, route-server client, iBGP, iBGP route-reflector client, confederation member) with or without a confederation and a configured cluster id announces routes whose AS_PATH (sequence / set / confederation segments where the session allows them) \
+pub const INBOUND_RULE: &str = "inbound-session: a wire-level peer of every kind (eBGP, route-server client, iBGP, iBGP route-reflector client, confederation member) with or without a confederation and a configured cluster id announces routes (an IPv4 prefix as legacy NLRI, an IPv6 prefix in MP_REACH_NLRI, or the latter in an UPDATE that also carries legacy IPv4 Withdrawn Routes and so splits into several parts) whose AS_PATH (sequence / set / confederation segments where the session allows them) \
 may contain the local AS or the confederation id (towards peers outside a confederation only the confederation id, the AS they know the speaker by, counts), whose ORIGINATOR_ID may be the local router-id and whose CLUSTER_LIST may contain the local cluster id. After each UPDATE the route is in the peer's Adj-RIB-In iff it loops in none of these ways (ORIGINATOR_ID / CLUSTER_LIST only count where the session may carry them: not from eBGP / route-server-client peers, whose copies are dropped on receipt; CLUSTER_LIST only on iBGP sessions). \
 non-trivial := a looped and a loop-free route in one case";
 
@@ -336,6 +336,10 @@ pub struct InRoute {
     /// extended-communities attribute (type 16) mixed in (a receiver must take any order)
     #[serde(default)]
     pub order: u8,
+    /// 0: an IPv4 prefix as legacy NLRI; 1: an IPv6 prefix in MP_REACH_NLRI; 2: the same, the UPDATE also
+    /// carrying legacy IPv4 Withdrawn Routes (of a prefix never announced), so that it splits into several parts
+    #[serde(default)]
+    pub shape: u8,
 }
 
 #[derive(Clone, Debug, Serialize, Deserialize)]
@@ -380,7 +384,7 @@ async fn inbound(c: &InboundCase) -> CheckResult {
         cluster_id: if c.cluster { Some(Ipv4Addr::from(IN_CLUSTER)) } else { None },
         admin_down: false,
         holdtime: 90,
-        families: vec![(Family::IPV4, 0)],
+        families: vec![(Family::IPV4, 0), (Family::IPV6, 0)],
         prefix_limit: None,
         gr: None,
         llgr: None,
@@ -390,7 +394,7 @@ async fn inbound(c: &InboundCase) -> CheckResult {
     }
     let mut p = WirePeer::on(rig.clone(), src);
     p.connect().await?;
-    let caps = vec![Capability::MultiProtocol(Family::IPV4), Capability::FourOctetAsNumber(peer_as)];
+    let caps = vec![Capability::MultiProtocol(Family::IPV4), Capability::MultiProtocol(Family::IPV6), Capability::FourOctetAsNumber(peer_as)];
     if !p.establish(peer_as, 0, 0x0a00_0009, caps.clone()).await? {
         return Err(Failure::new("harness", "the session did not establish".to_string()));
     }
@@ -422,7 +426,8 @@ async fn inbound(c: &InboundCase) -> CheckResult {
             cluster_list: clusters.clone(),
             ..Default::default()
         };
-        let net = v4(10, 80 + r.prefix % 6, i as u8, 0, 24);
+        let shape = r.shape % 3;
+        let net = if shape == 0 { v4(10, 80 + r.prefix % 6, i as u8, 0, 24) } else { packet::Nlri::V6(bgp::Ipv6Net { addr: std::net::Ipv6Addr::new(0x2001, 0xdb8, 80 + (r.prefix % 6) as u16, i as u16, 0, 0, 0, 0), mask: 64 }) };
         let mut attrs = spec.build();
         if r.order % 4 != 0 {
             attrs.push(packet::Attribute::new_with_bin(packet::Attribute::EXTENDED_COMMUNITY, vec![0x00, 0x02, 0xfd, 0xe8, 0, 0, 0, 9]).unwrap());
@@ -433,8 +438,31 @@ async fn inbound(c: &InboundCase) -> CheckResult {
             }
             info.classes.push("inbound/attributes-out-of-type-order");
         }
-        let msg = Message::Update(Update::Reach { family: Family::IPV4, entries: vec![bgp::PathNlri { path_id: 0, nlri: net.clone() }], nexthop: Some(Nexthop::V4(Ipv4Addr::new(192, 0, 2, 7))), attr: Arc::new(attrs) });
-        p.send_msg(&mut codec, &msg).await?;
+        let msg = if shape == 0 {
+            Message::Update(Update::Reach { family: Family::IPV4, entries: vec![bgp::PathNlri { path_id: 0, nlri: net.clone() }], nexthop: Some(Nexthop::V4(Ipv4Addr::new(192, 0, 2, 7))), attr: Arc::new(attrs) })
+        } else {
+            Message::Update(Update::Reach { family: Family::IPV6, entries: vec![bgp::PathNlri { path_id: 0, nlri: net.clone() }], nexthop: Some(Nexthop::V6("2001:db8::7".parse().unwrap())), attr: Arc::new(attrs) })
+        };
+        if shape == 2 {
+            // splice legacy Withdrawn Routes (10.99.<i>.0/24, never announced) into the encoded UPDATE
+            let mut buf = bytes::BytesMut::new();
+            let n = codec.encode_to(&msg, &mut buf).map_err(|e| Failure::new("harness", format!("encode: {e:?}")))?;
+            if n == 1 && buf.len() > 23 && buf[19] == 0 && buf[20] == 0 {
+                let w = [24u8, 10, 99, i as u8];
+                let mut out = buf[..19].to_vec();
+                out.extend_from_slice(&(w.len() as u16).to_be_bytes());
+                out.extend_from_slice(&w);
+                out.extend_from_slice(&buf[21..]);
+                let len = out.len() as u16;
+                out[16..18].copy_from_slice(&len.to_be_bytes());
+                p.send(&out, 1, &[]).await?;
+                info.classes.push("inbound/withdrawn-routes-and-mp-reach-in-one-update");
+            } else {
+                p.send(&buf, n.max(1) as u64, &[]).await?;
+            }
+        } else {
+            p.send_msg(&mut codec, &msg).await?;
+        }
         if p.is_closed() {
             return Err(Failure::new("harness", format!("the session was reset by route #{i} ({spec:?})")));
         }
@@ -445,7 +473,7 @@ async fn inbound(c: &InboundCase) -> CheckResult {
         let loop_orig = !external && originator == Some(IN_ROUTER_ID);
         let loop_cluster = ibgp && clusters.contains(&local_cluster);
         let looped = loop_as || loop_orig || loop_cluster;
-        let held = adj_in(&rig.tables, src, &[Family::IPV4]).iter().any(|(_, n, _)| *n == format!("{net:?}"));
+        let held = adj_in(&rig.tables, src, &[Family::IPV4, Family::IPV6]).iter().any(|(_, n, _)| *n == format!("{net:?}"));
         if held == looped {
             let why = if loop_as { "as-path" } else if loop_orig { "originator-id" } else if loop_cluster { "cluster-list" } else { "none" };
             return Err(Failure::new("inbound-loop", format!("route #{i} {net} from a {} peer (confederation: {confed}, cluster id configured: {}): AS_PATH {path:?}, ORIGINATOR_ID {originator:?}, CLUSTER_LIST {clusters:x?}; loops by {why}; in the Adj-RIB-In: {held}", ["eBGP", "route-server-client", "iBGP", "iBGP rr-client", "confederation-member"][kind as usize], c.cluster))
@@ -470,6 +498,6 @@ async fn inbound(c: &InboundCase) -> CheckResult {
 pub fn arb_inbound() -> impl Strategy<Value = InboundCase> {
     let asn = prop_oneof![3 => Just(IN_LOCAL_AS), 2 => Just(IN_CONFED_ID), 2 => Just(65010u32), 6 => 65100u32..65110, 1 => Just(4_200_000_000u32)];
     let seg = (prop_oneof![6 => Just(SEG_SEQ), 2 => Just(SEG_SET), 2 => Just(SEG_CONFED_SEQ), 1 => Just(SEG_CONFED_SET)], proptest::collection::vec(asn, 1..4));
-    let route = (0u8..6, proptest::collection::vec(seg, 1..4), prop_oneof![4 => Just(0u8), 2 => Just(1u8), 2 => Just(2u8)], proptest::collection::vec(0u8..6, 0..3), prop_oneof![2 => Just(0u8), 3 => 1u8..4]).prop_map(|(prefix, path, originator, clusters, order)| InRoute { prefix, path, originator, clusters, order });
+    let route = (0u8..6, proptest::collection::vec(seg, 1..4), prop_oneof![4 => Just(0u8), 2 => Just(1u8), 2 => Just(2u8)], proptest::collection::vec(0u8..6, 0..3), prop_oneof![2 => Just(0u8), 3 => 1u8..4], prop_oneof![3 => Just(0u8), 1 => Just(1u8), 2 => Just(2u8)]).prop_map(|(prefix, path, originator, clusters, order, shape)| InRoute { prefix, path, originator, clusters, order, shape });
     (0u8..5, any::<bool>(), any::<bool>(), proptest::collection::vec(route, 1..8)).prop_map(|(peer, confed, cluster, routes)| InboundCase { peer, confed, cluster, routes })
 }
